@@ -180,8 +180,6 @@ func (c *Conn) Write(p []byte) (int, error) {
 	for n < len(p) {
 		k := c.chunk(h, len(p)-n)
 		c.maybeStall(h)
-		frag := make([]byte, k)
-		copy(frag, p[n:n+k])
 
 		h.mu.Lock()
 		// wait for room (at least one byte) or a terminal condition
@@ -205,7 +203,6 @@ func (c *Conn) Write(p []byte) (int, error) {
 		}
 		if room := h.cap - len(h.buf); !h.truncated && k > room {
 			k = room
-			frag = frag[:k]
 		}
 		off := h.off
 		h.off += int64(k)
@@ -214,8 +211,10 @@ func (c *Conn) Write(p []byte) (int, error) {
 			n += k
 			continue
 		}
-		out := frag
+		out := p[n : n+k]
 		if c.opt.Hook != nil {
+			// the hook may modify the fragment: give it a private copy
+			frag := append([]byte(nil), out...)
 			out = c.opt.Hook(h.dir, off, frag)
 			if len(out) < len(frag) {
 				h.truncated = true
